@@ -316,7 +316,7 @@ def main(tier="quick", seed=0):
         pick = rng.choice(len(two_d), size=min(len(two_d), 500), replace=False)
         two_d = [two_d[i] for i in sorted(pick)]
     used = one_d + two_d
-    n_cfg = 28 if quick else 0      # quick: a seeded subset of the grid per case; thorough: the full grid
+    n_cfg = 28 if quick else 48     # a seeded subset of the (up to 86) grid configurations per case
     seeds = rng.integers(0, 2 ** 31, size=len(used)).tolist()
     out = pmap(_case_worker, [(c, n_cfg, s) for c, s in zip(used, seeds)])
     traces = []
@@ -344,7 +344,7 @@ def main(tier="quick", seed=0):
                 "x input form; traces with identical abstract content are validated once; evaluations = calls of "
                 "the library; non-trivial = array with at least one missing and one present label, distinct by "
                 "(array, shape, K, class mode, sentinel kind, dtype kind, input form)"
-                % (4 if quick else 5, len(two_d), "28 seeded" if quick else "all"))
+                % (4 if quick else 5, len(two_d), "28 seeded" if quick else "48 seeded"))
     chk.validate("LabelsTrace", traces,
                  describe=lambda t: dict(t["concrete"], functions="skactiveml.utils.is_unlabeled / is_labeled / "
                                          "unlabeled_indices / labeled_indices / ExtLabelEncoder"),
